@@ -5,7 +5,7 @@ import (
 	"strings"
 )
 
-const c05Rule = "keyword sets of 1..8 keywords over an 8-rune alphabet (a b c space 日 é x y; overlapping, nested, prefix/suffix chains, duplicates, keywords containing the separator, 1..3-byte runes), query texts of 0..12 runes given as a string, a []string or a []interface{} of 1..3 texts (joined by one space); one document per keyword (validates the automaton against substring semantics) and mixed documents (pattern include/exclude combined with default fields in one conjunction) on the k-groups, compact and roaring indexes. Non-trivial = some query returns a non-empty proper subset of the documents; distinct = distinct input"
+const c05Rule = "keyword sets of 1..8 keywords over an 8-rune alphabet (a b c space 日 é x y; overlapping, nested, prefix/suffix chains, duplicates, keywords containing the separator, 1..3-byte runes), query texts of 0..12 runes given as a string, a []string or a []interface{} of 1..3 texts (joined by one space); one document per keyword (validates the automaton against substring semantics) and the separator corner (list assignments with empty parts, keywords beginning / ending with / consisting of the separator), texts containing several different keywords, and mixed documents (pattern include/exclude combined with default fields in one conjunction) on the k-groups, compact and roaring indexes. Non-trivial = some query returns a non-empty proper subset of the documents; distinct = distinct input"
 
 var acAlphabet = []string{"a", "b", "c", " ", "日", "é", "x", "ab"}
 
@@ -83,6 +83,104 @@ func strsTV(r *Rand, ss []string) TV {
 	return tvSlice("[]string", l...)
 }
 
+// acDocsQueries: a keyword set, documents over a pattern field (1) and a default field (0), and queries.
+// perKeyword: one document per keyword (validates the automaton against substring semantics).
+func acDocsQueries(r *Rand, perKeyword bool) ([]eDoc, []eQuery) {
+	i := 1
+	if perKeyword {
+		i = 0
+	}
+	ks := acKeywords(r)
+	var docs []eDoc
+	if i%2 == 0 { // one document per keyword: the automaton against substring semantics
+		for k, kw := range ks {
+			docs = append(docs, eDoc{ID: int64(k + 1), Cons: []eConj{{{F: 1, Inc: true, V: tvStr(kw)}}}})
+		}
+	} else {
+		nd := 1 + r.Intn(5)
+		for d := 0; d < nd; d++ {
+			doc := eDoc{ID: int64(d+1) * int64(1-2*r.Intn(2))}
+			for c := 1 + r.Intn(2); c > 0; c-- {
+				var cj eConj
+				for e := 1 + r.Intn(3); e > 0; e-- {
+					if r.Chance(65) {
+						m := 1 + r.Intn(3)
+						var sub []string
+						for j := 0; j < m; j++ {
+							sub = append(sub, ks[r.Intn(len(ks))])
+						}
+						cj = append(cj, eExpr{F: 1, Inc: r.Chance(60), V: strsTV(r, sub)})
+					} else {
+						cj = append(cj, eExpr{F: 0, Inc: r.Chance(70), V: intsShape(r, randVals(r, 1+r.Intn(2), 4))})
+					}
+				}
+				doc.Cons = append(doc.Cons, cj)
+			}
+			docs = append(docs, doc)
+		}
+	}
+	var qs []eQuery
+	for q := 8 + r.Intn(8); q > 0; q-- {
+		var a []eAssign
+		if r.Chance(85) {
+			a = append(a, eAssign{F: 1, V: acQueryValue(r, ks)})
+		}
+		if r.Chance(60) {
+			a = append(a, eAssign{F: 0, V: tvInt("int", r.I64(1, 5))})
+		}
+		qs = append(qs, eQuery{A: a})
+	}
+	qs = append(qs, eQuery{}, eQuery{A: []eAssign{{F: 1, V: tvStr("")}}}, eQuery{A: []eAssign{{F: 1, V: tvSlice("[]string")}}})
+	// texts containing several different keywords
+	for k := 0; k < 3; k++ {
+		a, b := ks[r.Intn(len(ks))], ks[r.Intn(len(ks))]
+		qs = append(qs, eQuery{A: []eAssign{{F: 1, V: tvStr(acWord(r, r.Intn(2)) + a + acWord(r, r.Intn(3)) + b)}}},
+			eQuery{A: []eAssign{{F: 1, V: tvSlice("[]string", tvStr(b), tvStr(a))}, {F: 0, V: tvInt("int", r.I64(1, 5))}}})
+	}
+	return docs, qs
+}
+
+// the separator corner: list assignments with empty parts, keywords that begin / end with / consist of the separator
+func acSeparatorCorner(add func(in interface{})) {
+	kw := func(f int, inc bool, ss ...string) eExpr {
+		l := make([]TV, len(ss))
+		for i, s := range ss {
+			l[i] = tvStr(s)
+		}
+		return eExpr{F: f, Inc: inc, V: tvSlice("[]string", l...)}
+	}
+	tag := eExpr{F: 0, Inc: true, V: tvSlice("[]int", tvInt("int", 1))}
+	docs := []eDoc{
+		{ID: 1, Cons: []eConj{{kw(1, true, " a"), tag}}},
+		{ID: 2, Cons: []eConj{{kw(1, false, " a"), tag}}},
+		{ID: 3, Cons: []eConj{{kw(1, true, "a")}}},
+		{ID: 4, Cons: []eConj{{kw(1, true, "a ")}}},
+		{ID: 5, Cons: []eConj{{kw(1, true, " ")}}},
+		{ID: 6, Cons: []eConj{{kw(1, true, "a b", "b  a")}}},
+		{ID: 7, Cons: []eConj{{kw(1, false, "  ")}, {kw(1, true, "b ", " b")}}},
+	}
+	var qs []eQuery
+	for _, parts := range [][]string{{"", "a"}, {"", "", "a"}, {"a", ""}, {"a", "", "b"}, {"", ""}, {""}, {" a"}, {"a"}, {"a", "b"}, {"b", "", "", "a"}, {"", "b", ""}, {"a ", " b"}, {" "}, {"", " "}} {
+		l := make([]TV, len(parts))
+		for i, s := range parts {
+			l[i] = tvStr(s)
+		}
+		for _, v := range []TV{tvSlice("[]string", l...), tvList(l...)} {
+			qs = append(qs, eQuery{A: []eAssign{{F: 1, V: v}, {F: 0, V: tvSlice("[]int", tvInt("int", 1))}}}, eQuery{A: []eAssign{{F: 1, V: v}}})
+		}
+		if len(parts) == 1 {
+			qs = append(qs, eQuery{A: []eAssign{{F: 1, V: l[0]}, {F: 0, V: tvInt("int", 1)}}})
+		}
+	}
+	add(eCase{Kind: "kgroups", Policy: "error", Configs: map[int]string{1: "ac_matcher"}, Docs: docs, Queries: qs})
+	add(eCase{Kind: "compact", Policy: "error", Configs: map[int]string{1: "ac_matcher"}, Docs: docs, Queries: qs})
+	c := rCase{Fields: []rField{{F: 0, Cont: "default"}, {F: 1, Cont: "ac_matcher"}}, Docs: docs}
+	for i, q := range qs {
+		c.Ops = append(c.Ops, rOp{S: 0, Op: "reset"}, rOp{S: 0, Op: []string{"retrieve", "docs"}[i%2], A: q.A}, rOp{S: 0, Op: "raw"})
+	}
+	add(c)
+}
+
 func init() {
 	props["C05"] = &propDef{
 		header:    "From BE Require Import Corr.CheckC05.",
@@ -94,48 +192,9 @@ func init() {
 			if tier == "thorough" {
 				n = 5000
 			}
+			acSeparatorCorner(add)
 			for i := 0; i < n; i++ {
-				ks := acKeywords(r)
-				var docs []eDoc
-				if i%2 == 0 { // one document per keyword: the automaton against substring semantics
-					for k, kw := range ks {
-						docs = append(docs, eDoc{ID: int64(k + 1), Cons: []eConj{{{F: 1, Inc: true, V: tvStr(kw)}}}})
-					}
-				} else {
-					nd := 1 + r.Intn(5)
-					for d := 0; d < nd; d++ {
-						doc := eDoc{ID: int64(d+1) * int64(1-2*r.Intn(2))}
-						for c := 1 + r.Intn(2); c > 0; c-- {
-							var cj eConj
-							for e := 1 + r.Intn(3); e > 0; e-- {
-								if r.Chance(65) {
-									m := 1 + r.Intn(3)
-									var sub []string
-									for j := 0; j < m; j++ {
-										sub = append(sub, ks[r.Intn(len(ks))])
-									}
-									cj = append(cj, eExpr{F: 1, Inc: r.Chance(60), V: strsTV(r, sub)})
-								} else {
-									cj = append(cj, eExpr{F: 0, Inc: r.Chance(70), V: intsShape(r, randVals(r, 1+r.Intn(2), 4))})
-								}
-							}
-							doc.Cons = append(doc.Cons, cj)
-						}
-						docs = append(docs, doc)
-					}
-				}
-				var qs []eQuery
-				for q := 8 + r.Intn(8); q > 0; q-- {
-					var a []eAssign
-					if r.Chance(85) {
-						a = append(a, eAssign{F: 1, V: acQueryValue(r, ks)})
-					}
-					if r.Chance(60) {
-						a = append(a, eAssign{F: 0, V: tvInt("int", r.I64(1, 5))})
-					}
-					qs = append(qs, eQuery{A: a})
-				}
-				qs = append(qs, eQuery{}, eQuery{A: []eAssign{{F: 1, V: tvStr("")}}}, eQuery{A: []eAssign{{F: 1, V: tvSlice("[]string")}}})
+				docs, qs := acDocsQueries(r, i%2 == 0)
 				switch i % 3 {
 				case 0:
 					add(eCase{Kind: "kgroups", Policy: "error", Configs: map[int]string{1: "ac_matcher"}, Docs: docs, Queries: qs})
